@@ -1,6 +1,9 @@
 #ifndef PHOTOSPLINE_DETAIL_AUX_H
 #define PHOTOSPLINE_DETAIL_AUX_H
 
+#include <cmath>
+#include <type_traits>
+
 #include "photospline/detail/fitsio.h"
 
 namespace photospline{
@@ -49,15 +52,55 @@ bool splinetable<Alloc>::remove_key(const char* key){
 	return (true);
 }
 	
+namespace detail{
+	///Stream extraction has no spelling for the non-finite floating point 
+	///values which stream insertion produces ("inf", "-inf", "nan").
+	template<typename T>
+	bool parseNonFinite(const char*, T&, std::false_type){ return(false); }
+	template<typename T>
+	bool parseNonFinite(const char* value, T& result, std::true_type){
+		char* end;
+		double parsed=strtod(value,&end);
+		if(end==value || std::isfinite(parsed))
+			return(false);
+		while(*end==' ')
+			end++;
+		if(*end)
+			return(false);
+		result=parsed;
+		return(true);
+	}
+	///Extraction of a negative number into an unsigned type succeeds, and 
+	///yields the value modulo a power of two.
+	inline bool negativeNumber(const char*, std::false_type){ return(false); }
+	inline bool negativeNumber(const char* value, std::true_type){
+		while(*value==' ')
+			value++;
+		return(*value=='-');
+	}
+}
+
 template<typename Alloc>
 template<typename T>
 bool splinetable<Alloc>::read_key(const char* key, T& result) const{
 	const char* value = get_aux_value(key);
 	if(!value)
 		return (false);
+	if(detail::negativeNumber(&*value,std::integral_constant<bool,std::is_unsigned<T>::value>()))
+		return (false);
 	std::istringstream ss(&*value);
-	ss >> result;
-	return (!ss.fail());
+	T parsed;
+	ss >> parsed;
+	if(ss.fail())
+		return (detail::parseNonFinite(&*value,result,std::integral_constant<bool,std::is_floating_point<T>::value>()));
+	//The whole value, apart from the blanks which FITS may have appended, must
+	//have been used: otherwise what was extracted is only the beginning of 
+	//something else (3 from "3e+06", 12 from "12 monkeys").
+	ss >> std::ws;
+	if(!ss.eof())
+		return (false);
+	result=parsed;
+	return (true);
 }
 	
 template<typename Alloc>
